@@ -1744,19 +1744,34 @@ static size_t ZSTD_estimateCCtxSize_usingCCtxParams_internal(
     return neededSpace;
 }
 
+/* The LDM parameters actually applied by a compression are resolved (auto mode)
+ * and adjusted (0 == default values) when the context is reset :
+ * do the same before sizing the LDM tables. */
+static ldmParams_t ZSTD_resolveLdmParamsForEstimate(const ZSTD_CCtx_params* params,
+                                                    const ZSTD_compressionParameters* cParams)
+{
+    ldmParams_t ldmParams = params->ldmParams;
+    ldmParams.enableLdm = ZSTD_resolveEnableLdm(ldmParams.enableLdm, cParams);
+    if (ldmParams.enableLdm == ZSTD_ps_enable) {
+        ZSTD_ldm_adjustParameters(&ldmParams, cParams);
+    }
+    return ldmParams;
+}
+
 size_t ZSTD_estimateCCtxSize_usingCCtxParams(const ZSTD_CCtx_params* params)
 {
     ZSTD_compressionParameters const cParams =
                 ZSTD_getCParamsFromCCtxParams(params, ZSTD_CONTENTSIZE_UNKNOWN, 0, ZSTD_cpm_noAttachDict);
     ZSTD_paramSwitch_e const useRowMatchFinder = ZSTD_resolveRowMatchFinderMode(params->useRowMatchFinder,
                                                                                &cParams);
+    ldmParams_t const ldmParams = ZSTD_resolveLdmParamsForEstimate(params, &cParams);
 
     RETURN_ERROR_IF(params->nbWorkers > 0, GENERIC, "Estimate CCtx size is supported for single-threaded compression only.");
     /* estimateCCtxSize is for one-shot compression. So no buffers should
      * be needed. However, we still allocate two 0-sized buffers, which can
      * take space under ASAN. */
     return ZSTD_estimateCCtxSize_usingCCtxParams_internal(
-        &cParams, &params->ldmParams, 1, useRowMatchFinder, 0, 0, ZSTD_CONTENTSIZE_UNKNOWN, ZSTD_hasExtSeqProd(params), params->maxBlockSize);
+        &cParams, &ldmParams, 1, useRowMatchFinder, 0, 0, ZSTD_CONTENTSIZE_UNKNOWN, ZSTD_hasExtSeqProd(params), params->maxBlockSize);
 }
 
 size_t ZSTD_estimateCCtxSize_usingCParams(ZSTD_compressionParameters cParams)
@@ -1814,9 +1829,10 @@ size_t ZSTD_estimateCStreamSize_usingCCtxParams(const ZSTD_CCtx_params* params)
                 ? ZSTD_compressBound(blockSize) + 1
                 : 0;
         ZSTD_paramSwitch_e const useRowMatchFinder = ZSTD_resolveRowMatchFinderMode(params->useRowMatchFinder, &cParams);
+        ldmParams_t const ldmParams = ZSTD_resolveLdmParamsForEstimate(params, &cParams);
 
         return ZSTD_estimateCCtxSize_usingCCtxParams_internal(
-            &cParams, &params->ldmParams, 1, useRowMatchFinder, inBuffSize, outBuffSize,
+            &cParams, &ldmParams, 1, useRowMatchFinder, inBuffSize, outBuffSize,
             ZSTD_CONTENTSIZE_UNKNOWN, ZSTD_hasExtSeqProd(params), params->maxBlockSize);
     }
 }
